@@ -368,7 +368,7 @@ fn mutate(rng: &mut Rng, n: &mut GNode, depth: usize) {
             0 => *text = "not-what-you-want".into(),
             1 => *n = GNode::Seq { anchor: None, tag: None, items: vec![], flow: true },
             2 => *n = GNode::Map { anchor: None, tag: None, entries: vec![], flow: true },
-            3 => *tag = Some(rng.pick(&["!!str", "!!null", "!!int", "!", "!Unknown", "!A", "!!binary"]).to_string()),
+            3 => *tag = Some(rng.pick(&["!!str", "!!null", "!!int", "!", "!Unknown", "!A", "!!binary", "!Null", "!Binary", "!Int", "!Str", "!NULL", "!!Null", "!!merge", "!merge"]).to_string()),
             4 => *style = 2,
             5 => *text = "~".into(),
             _ => {}
@@ -410,7 +410,7 @@ fn merge_value(rng: &mut Rng, depth: u32, nd: usize, nl: usize) -> GNode {
     }
 }
 
-fn merge_doc(rng: &mut Rng) -> GNode {
+pub fn merge_doc(rng: &mut Rng) -> GNode {
     // mappings with merge entries: inline maps, aliases, sequences (nested too), nested merges, colliding own keys
     let keys = ["a", "b", "c", "d"];
     let mut defs: Vec<(GNode, GNode)> = Vec::new();
@@ -446,8 +446,31 @@ fn merge_doc(rng: &mut Rng) -> GNode {
             _ => entries.push((GNode::Scalar { text: "<<".into(), style: *rng.pick(&[1u8, 2]), anchor: None, tag: if rng.chance(1, 2) { Some("!!str".into()) } else { None } }, sc("q"))),
         }
     }
-    let target = GNode::Map { anchor: None, tag: None, entries, flow: rng.chance(1, 2) };
+    // the `<<` indicator itself may carry an anchor, be an alias to an anchored `<<`, or carry the YAML 1.1 merge tag
+    // (an anchor must not change the meaning; a tagged `<<` is an ordinary key)
+    let mut k_anchor_defined = false;
+    for e in entries.iter_mut() {
+        let is_plain_merge = matches!(&e.0, GNode::Scalar { text, style: 0, anchor: None, tag: None } if text == "<<");
+        if !is_plain_merge { continue; }
+        match rng.below(10) {
+            0 if !k_anchor_defined => { e.0 = GNode::Scalar { text: "<<".into(), style: 0, anchor: Some("k".into()), tag: None }; k_anchor_defined = true; }
+            1 if k_anchor_defined => { e.0 = GNode::Alias("k".into()); }
+            2 => { e.0 = GNode::Scalar { text: "<<".into(), style: 0, anchor: None, tag: Some(rng.pick(&["!!merge", "!merge", "!!str", "!"]).to_string()) }; }
+            _ => {}
+        }
+    }
+    let mut target = GNode::Map { anchor: None, tag: None, entries, flow: rng.chance(1, 2) };
     let mut top = defs;
+    // nested anchored containers around a merge through an alias, then the OUTER anchor is used again
+    if nd > 0 && rng.chance(1, 5) {
+        let inner = GNode::Map { anchor: Some("inner".into()), tag: None, flow: true, entries: vec![(sc("<<"), GNode::Alias("m0".into())), (sc("x"), sc("2"))] };
+        let outer = GNode::Map { anchor: Some("outer".into()), tag: None, flow: true, entries: vec![(sc("db"), inner), (sc("a"), sc("8"))] };
+        top.push((sc("svc"), outer));
+        if let GNode::Map { entries, .. } = &mut target {
+            let at = rng.below(entries.len() + 1);
+            entries.insert(at, if rng.chance(1, 2) { (sc("<<"), GNode::Alias("outer".into())) } else { (sc("d"), GNode::Alias("outer".into())) });
+        }
+    }
     top.push((sc("t"), target));
     GNode::Map { anchor: None, tag: None, entries: top, flow: false }
 }
@@ -469,7 +492,15 @@ fn dup_doc(rng: &mut Rng) -> GNode {
         let v = match rng.below(4) { 0 => GNode::Seq { anchor: None, tag: None, items: vec![sc("1"), GNode::Map { anchor: None, tag: None, entries: vec![(sc("n"), sc("2"))], flow: true }], flow: true }, 1 => GNode::Map { anchor: None, tag: None, entries: vec![(sc("i"), sc("j"))], flow: rng.chance(1, 2) }, _ => sc(&rng.below(9).to_string()) };
         entries.push((mk_key(rng), v));
     }
-    GNode::Map { anchor: None, tag: None, entries, flow: rng.chance(1, 3) }
+    let flow = rng.chance(1, 3);
+    if rng.chance(1, 4) {
+        // the same mapping anchored (possibly one level down) and used again through an alias
+        let m = GNode::Map { anchor: Some("d".into()), tag: None, entries, flow: true };
+        let first = if rng.chance(1, 2) { m } else { GNode::Seq { anchor: Some("o".into()), tag: None, items: vec![m, sc("z")], flow: true } };
+        let second = if matches!(first, GNode::Seq { .. }) && rng.chance(1, 2) { GNode::Alias("o".into()) } else { GNode::Alias("d".into()) };
+        return GNode::Map { anchor: None, tag: None, flow: false, entries: vec![(sc("a"), first), (sc("b"), second)] };
+    }
+    GNode::Map { anchor: None, tag: None, entries, flow }
 }
 
 /// minimised past findings and hand-written edge cases: run first in every typed / general run
@@ -498,6 +529,13 @@ fn corpus() -> Vec<(Ty, String)> {
     for t in ["{a: [1, 2, 3]}", "{a: [1, 2], b: 3}", "a: [[1, 2, 3]]\n", "a: [1, 2]\n"] {
         v.push((Ty::Struct(vec![("a", Ty::Tuple(vec![i32t(), i32t()])), ("b", Ty::Option(Box::new(i32t())))], false), t.replace("\\n", "\n")));
         v.push((Ty::Map(Box::new(Ty::Str), Box::new(Ty::Tuple(vec![Ty::Tuple(vec![i32t(), i32t()]), i32t()]))), t.replace("\\n", "\n")));
+    }
+    for t in ["{B: {}}", "{B: []}", "{B: ''}", "{B: ~}", "{B: 0}", "{B: {x: 1}}", "- B: {}\n", "!B {}", "!B []", "!Null ''", "!Null 7", "!Binary AQID", "!Int 5", "[!Null 7]", "{A: !Null 7}"] {
+        v.push((e(), t.replace("\\n", "\n")));
+        v.push((Ty::Seq(Box::new(e())), t.replace("\\n", "\n")));
+        v.push((Ty::Option(Box::new(Ty::Enum("N", vec![("Null", VTy::Unit), ("Int", VTy::Newtype(i32t())), ("Binary", VTy::Newtype(Ty::Bytes))]))), t.replace("\\n", "\n")));
+        v.push((Ty::Seq(Box::new(u8t())), t.replace("\\n", "\n")));
+        v.push((Ty::Any, t.replace("\\n", "\n")));
     }
     for t in ["!!binary AAEC", "!!binary AAE=", "!!binary AA==", "!!binary \"\"", "!!binary AAECAw==", "[0, 1]", "[0, 1, 2]"] {
         v.push((Ty::Tuple(vec![u8t(), u8t()]), t.to_string()));
@@ -642,9 +680,13 @@ fn generate_scalars(a: &Args) -> i32 {
         "0", "-0", "+0", "1", "-1", "127", "128", "-128", "-129", "255", "256", "65535", "65536", "2147483647", "2147483648", "-2147483648",
         "9223372036854775807", "9223372036854775808", "-9223372036854775808", "18446744073709551615", "18446744073709551616",
         "170141183460469231731687303715884105727", "340282366920938463463374607431768211455", "340282366920938463463374607431768211456",
+        // explicit sign at the i64 / u64 / i128 / u128 boundaries, in every radix
+        "+9223372036854775807", "+9223372036854775808", "+18446744073709551615", "+18446744073709551616", "-9223372036854775809", "+170141183460469231731687303715884105728",
+        "+0xFFFFFFFFFFFFFFFF", "0xFFFFFFFFFFFFFFFF", "+0x10000000000000000", "-0x8000000000000000", "-0x8000000000000001", "+0o1777777777777777777777", "+0b1111111111111111111111111111111111111111111111111111111111111111",
+        "+0x7FFFFFFFFFFFFFFF", "+0x8000000000000000", "018446744073709551615", "+018446744073709551615",
         "0x1F", "0X1f", "0o17", "0b101", "007", "00", "0o8", "0x", "1_000", "_1", "1_", "+5", "- 5", "0x-1", "-0x80", "0o400000000000000000000000000000000000000000000",
         "1.5", "-1.5", "1.", ".5", "1e3", "1E-3", "1e", ".inf", "-.INF", "+.Inf", ".nan", ".NaN", "inf", "infinity", "nan", "1.00000005960464477540", "1e400", "4.9e-324",
-        "a", "é", "ab", "hello world", "<<", "-", "123abc", "AQID", "aGVsbG8=", "AB==", "/w==", " 12 ", "12 ", "\u{a0}12",
+        "a", "é", "ab", "hello world", "<<", "-", "123abc", "AQID", "aGVsbG8=", "AB==", "/w==", "=AAA", "A=AA", "==A=", "QUJD=A==", "A===", "QQ==QQ==", "QUJD", "QUI=", " 12 ", "12 ", "\u{a0}12",
     ];
     let tags = ["", "!!str ", "!!int ", "!!float ", "!!bool ", "!!null ", "!!binary ", "! ", "!custom ", "!!timestamp "];
     let targets = vec![
